@@ -1225,6 +1225,24 @@ fn run_inner(args: &Args, out: &mut Out) {
             texts += 1;
         }
     }
+    // (1b) every decimal exponent a double can need, in every spelling of the exponent part (a conversion that
+    //      mishandles one exponent value or one sign spelling must be hit in the quick tier)
+    for e in -345i64..=325 {
+        let d = rng.range(1, 9);
+        let f = rng.range(0, 999);
+        let mut forms = vec![format!("{}e{}", d, e), format!("{}.{}E{}", d, f, e)];
+        if e >= 0 {
+            forms.push(format!("{}e+{}", d, e));
+            forms.push(format!("{}.{:03}E+{}{}", d, f, e, rng.pick(FLOAT_SUFFIX)));
+        } else {
+            forms.push(format!("{}.{}e{}{}", d, f, e, rng.pick(FLOAT_SUFFIX)));
+        }
+        for t in forms {
+            emit(&t, &plain, out, &mut hist);
+            texts += 1;
+        }
+        hist.add("float.exponent_sweep");
+    }
     hist.add("phase.exhaustive_done");
     // (2) random token soups with arbitrary trivia
     let n_text = args.n.unwrap_or(if args.thorough() { 300_000 } else { 20_000 });
